@@ -19,7 +19,9 @@ func init() {
 func VerifC08Hover()     { verifC08Hover(c08Quick) }
 func VerifC08HoverLong() { verifC08Hover(c08Thorough) }
 
-// c08AtCursor asserts that the cursor lies within the (already validated) range.
+// c08AtCursor asserts that the cursor lies within the range: on the cursor's line, start <= cursor <= end. It is
+// asserted for exact ranges and for ranges whose columns a known class explains alike (no class moves a range
+// to another line or away from the cursor).
 func c08AtCursor(r protocol.Range, pos protocol.Position, what string) {
 	zzverif.Assert(r.Start.Line == pos.Line && r.End.Line == pos.Line, what+": range is not on the cursor's line")
 	zzverif.Assert(r.Start.Character <= pos.Character, what+": range starts after the cursor")
@@ -54,8 +56,8 @@ func verifC08Hover(tier int) {
 		}
 	}
 	zzverif.Assert(kind >= 0, "hover: unknown hover content")
-	if c08Covers(d, *h.Range, "hover", kind) >= 0 {
-		c08AtCursor(*h.Range, pos, "hover")
-	}
+	c08Covers(d, *h.Range, "hover", kind)
+	// also when a known class explains the columns: the range is on the cursor's line and contains the cursor
+	c08AtCursor(*h.Range, pos, "hover")
 	zzverif.Reach("C08.hover.range")
 }
